@@ -444,12 +444,12 @@ pub fn native_subjects(prop: &str) -> Vec<Subject> {
         // The same filter with more data than its four streams hold together
         // (one page each): everything full, samples in flight inside, when the
         // input ends.
-        {
+        for nlong in [1800usize, 3000] {
             let ftaps = vec![0.5f32, 0.25, -0.125];
-            let fdata = test_floats(3000);
+            let fdata = test_floats(nlong);
             v.push(Subject {
                 block: "FftFilterFloat".into(),
-                variant: "ntaps=3, 3000 samples through one-page streams".into(),
+                variant: format!("ntaps=3, {nlong} samples through one-page streams"),
                 quantum: 1024,
                 build: Box::new(move |st| {
                     verif::clear_stream_specs();
